@@ -972,10 +972,15 @@ def diff_helper(func, arr, *args, **kwargs):
 
 @implements(np.diff)
 def diff(a, *args, **kwargs):
-    for key in ("prepend", "append"):
-        if key in kwargs and hasattr(a, "units"):
-            # values joined to the data before differencing are expressed in its units
-            kwargs[key] = _values_in(a.units, kwargs[key])
+    if hasattr(a, "units"):
+        # values joined to the data before differencing are expressed in its
+        # units: np.diff(a, n, axis, prepend, append)
+        args = args[:2] + tuple(
+            arg if arg is np._NoValue else _values_in(a.units, arg) for arg in args[2:4]
+        )
+        for key in ("prepend", "append"):
+            if key in kwargs and kwargs[key] is not np._NoValue:
+                kwargs[key] = _values_in(a.units, kwargs[key])
     return diff_helper(np.diff, a, *args, **kwargs)
 
 
